@@ -1,11 +1,151 @@
+import TinysetModel.Proofs.PropsAux
+import TinysetModel.Proofs.InlineSpec
+import TinysetModel.Proofs.Demo
 import TinysetModel.Proofs.Consts
-/-! C06 — see /verif/properties.jsonl.  Theorems for this property are being added; the ones
-below are the obligations checked so far. -/
+/-! C06 — memory safety under any conforming allocator: the LOGIC part.
+
+SCOPE.  The model is functional: a heap block is an `Array Nat` inside `Rp.heap sz cap bits a`; there are no
+addresses, no `alloc`/`dealloc` calls and no bytes.  Byte-level pointer behaviour (each block released exactly
+once with the layout it was requested with, no access outside a live block, no leak) is therefore OUTSIDE the
+model and is checked by the harness's instrumented `#[global_allocator]` (guard bytes, quarantine, minimal
+alignment, cross-check of the header `cap` against the allocator's record).
+
+What IS proved here are the two facts of the set logic on which that behaviour rests:
+1. *tag coherence*: every inline-vs-pointer test in the current source (`Gen.tagMasks64/32`, read off the
+   source by the translator) uses a mask that is below the alignment the block layout requests, an inline
+   word is never 0 modulo `mask + 1` (never mistaken for a pointer), and an address that is a multiple of the
+   requested alignment is always 0 modulo `mask + 1` (never mistaken for an inline word) — also under an
+   allocator that aligns no more strictly than requested;
+2. *the header capacity is the allocated capacity*: in every well-formed heap value of every layout
+   `cap = a.size` and `0 < cap`, so the layout that `Drop`, `Clone`, `with_capacity_of` and the slice
+   constructors recompute from the header is the layout of the words actually held; and every operation
+   returns a well-formed value again. -/
 namespace C06
-open SC
+open SC TinyC
 
 /-- the model's constants are the ones in the current source -/
 theorem consts_match : TinyC.codec64.splits = Gen.bitsplits64 ∧ TinyC.codec32.splits = Gen.bitsplits32 :=
   ⟨bitsplits64_match, bitsplits32_match⟩
 
+/-! ### 1. tag coherence -/
+
+/-- SetU64: for EVERY inline-vs-pointer test found in the source (`to_array`, `clone`, `with_capacity_of`,
+`internal`, `internal_mut`), with its mask `p.2`: an inline word (1..7 elements) is non-zero modulo `mask+1`,
+and every multiple of the block alignment is zero modulo `mask+1` -/
+theorem tag_coherent_u64 (t : T) (h : 1 ≤ t.sz ∧ t.sz ≤ 7) : ∀ p ∈ Gen.tagMasks64,
+    toWord codec64 t % (p.2 + 1) ≠ 0 ∧ ∀ k, (k * Gen.layout64.2.2) % (p.2 + 1) = 0 :=
+  tag_coherent64_src t h
+/-- SetU32 (1..6 elements; blocks are only 4-aligned, the count is encoded so that the low TWO bits are never both 0) -/
+theorem tag_coherent_u32 (t : T) (h : 1 ≤ t.sz ∧ t.sz ≤ 6) : ∀ p ∈ Gen.tagMasks32,
+    toWord codec32 t % (p.2 + 1) ≠ 0 ∧ ∀ k, (k * Gen.layout32.2.2) % (p.2 + 1) = 0 :=
+  tag_coherent32_src t h
+
+/-- … in particular for the word of every well-formed inline value -/
+theorem inline_word_tagged_u64 {t : T} (wf : WF cfg64 (.stack t)) : toWord codec64 t % 8 ≠ 0 := stackWF_tag64 wf
+theorem inline_word_tagged_u32 {t : T} (wf : WF cfg32 (.stack t)) : toWord codec32 t % 4 ≠ 0 := stackWF_tag32 wf
+
+/-- no test uses a mask that needs more alignment than the layout passed to the allocator requests -/
+theorem tag_mask_le_align_u64 : ∀ p ∈ Gen.tagMasks64, p.2 + 1 ≤ Gen.layout64.2.2 := tagMask_le_align64
+theorem tag_mask_le_align_u32 : ∀ p ∈ Gen.tagMasks32, p.2 + 1 ≤ Gen.layout32.2.2 := tagMask_le_align32
+/-- all tests of one type use the same mask (7 for SetU64, 3 for SetU32) -/
+theorem tag_masks_uniform : (∀ p ∈ Gen.tagMasks64, p.2 = 7) ∧ (∀ p ∈ Gen.tagMasks32, p.2 = 3) :=
+  ⟨tagMasks64_coherent, tagMasks32_coherent⟩
+
+/-- the model's header size and element size are the ones in the source's `Layout` computation -/
+theorem layout_u64 : (headerBytes cfg64, elemBytes cfg64) = (Gen.layout64.1, Gen.layout64.2.1) := layout64_match
+theorem layout_u32 : (headerBytes cfg32, elemBytes cfg32) = (Gen.layout32.1, Gen.layout32.2.1) := layout32_match
+
+/-! ### 2. the header capacity is the allocated capacity -/
+
+section generic
+variable {c : Cfg} {D : Type}
+
+/-- every well-formed heap value, in each of the three heap layouts: the header `cap` is the number of words
+of the block's array, and it is positive (no zero-sized allocation) -/
+theorem header_cap_is_allocated (ok : CfgOK c) {sz cap bits : Nat} {a : RH.Tbl} (wf : WF c (.heap sz cap bits a)) :
+    cap = a.size ∧ 0 < cap := heap_cap_of_wf ok wf
+
+/-- so the byte size recomputed from the header (`bytes_for_capacity(cap)`) is header + the words held -/
+theorem block_bytes_from_header (ok : CfgOK c) {sz cap bits : Nat} {a : RH.Tbl} (wf : WF c (.heap sz cap bits a)) :
+    blockBytes c (.heap sz cap bits a) = a.size * elemBytes c + headerBytes c := blockBytes_of_wf ok wf
+
+/-- values without a block claim no bytes -/
+theorem no_block_no_bytes (c : Cfg) (t : T) : blockBytes c .empty = 0 ∧ blockBytes c (.stack t) = 0 := ⟨rfl, rfl⟩
+
+/-- preserved by `insert` (including growth, layout conversion and placeholder re-selection): whatever it
+returns is well formed … -/
+theorem insert_preserves_wf (ok : CfgOK c) (g : Rng D) (fuel : Nat) {r : Rp} (wf : WF c r) (e : Nat) (he : e < 2 ^ c.W)
+    {d d' : D} {r' : Rp} {b : Bool} (h : insert c g fuel r e d = .ok ((r', b), d')) : WF c r' :=
+  (insert_refines ok g fuel r e d r' b d' wf he h).wf
+/-- … so a returned heap value has `cap = a.size`, `0 < cap` -/
+theorem insert_header_cap (ok : CfgOK c) (g : Rng D) (fuel : Nat) {r : Rp} (wf : WF c r) (e : Nat) (he : e < 2 ^ c.W)
+    {d d' : D} {sz cap bits : Nat} {a : RH.Tbl} {b : Bool}
+    (h : insert c g fuel r e d = .ok ((.heap sz cap bits a, b), d')) : cap = a.size ∧ 0 < cap :=
+  insert_heap_cap ok g fuel wf e he h
+
+/-- preserved by `remove` -/
+theorem remove_preserves_wf (ok : CfgOK c) (g : Rng D) (fuel : Nat) {r : Rp} (wf : WF c r) (e : Nat) (he : e < 2 ^ c.W)
+    {d d' : D} {r' : Rp} {b : Bool} (h : remove c g fuel r e d = .ok ((r', b), d')) : WF c r' :=
+  (remove_refines ok g fuel wf e he h).wf
+theorem remove_header_cap (ok : CfgOK c) (g : Rng D) (fuel : Nat) {r : Rp} (wf : WF c r) (e : Nat) (he : e < 2 ^ c.W)
+    {d d' : D} {sz cap bits : Nat} {a : RH.Tbl} {b : Bool}
+    (h : remove c g fuel r e d = .ok ((.heap sz cap bits a, b), d')) : cap = a.size ∧ 0 < cap :=
+  remove_heap_cap ok g fuel wf e he h
+
+/-- at the end of every history of `insert`/`remove`/`contains`/`len` from any well-formed start -/
+theorem history_header_cap (ok : CfgOK c) (g : Rng D) (fuel : Nat) (ops : List Op) (hops : ∀ op ∈ ops, op.InRange c.W)
+    {r : Rp} (wf : WF c r) {d d' : D} {sz cap bits : Nat} {a : RH.Tbl} {outs : List Out}
+    (h : runOps c g fuel r ops d = .ok ((.heap sz cap bits a, outs), d')) : cap = a.size ∧ 0 < cap :=
+  run_heap_cap ok g fuel ops hops wf h
+
+/-- the blocks made by the constructors, `clone`, `with_capacity_of` and `drain` -/
+theorem ctor_wf (ok : CfgOK c) (g : Rng D) (cap bits : Nat) (hbits : bits < 2 ^ c.W) {d d' : D} {r : Rp}
+    (h : withCapBits c g cap bits d = .ok (r, d')) : WF c r := (withCapBits_ok ok g cap bits hbits d d' r h).1
+theorem ctor_max_wf (ok : CfgOK c) (g : Rng D) (cap mx : Nat) {d d' : D} {r : Rp}
+    (h : withCapMax c g cap mx d = .ok (r, d')) : WF c r := (withCapMax_ok ok g cap mx d d' r h).1
+theorem with_capacity_of_wf (ok : CfgOK c) {r : Rp} (wf : WF c r) : WF c (withCapOf r) ∧ capacity (withCapOf r) = capacity r :=
+  ⟨(withCapOf_ok ok wf).1, (withCapOf_ok ok wf).2.2⟩
+theorem clone_wf {r : Rp} (wf : WF c r) : WF c (clone r) ∧ capacity (clone r) = capacity r := ⟨wf, rfl⟩
+
+end generic
+
+/-! ### instances -/
+
+theorem header_cap_is_allocated_u64 {sz cap bits : Nat} {a : RH.Tbl} (wf : WF cfg64 (.heap sz cap bits a)) :
+    cap = a.size ∧ 0 < cap := heap_cap_of_wf cfg64_ok wf
+theorem header_cap_is_allocated_u32 {sz cap bits : Nat} {a : RH.Tbl} (wf : WF cfg32 (.heap sz cap bits a)) :
+    cap = a.size ∧ 0 < cap := heap_cap_of_wf cfg32_ok wf
+
+/-- SetU64: 24 header bytes + 8 per word -/
+theorem block_bytes_u64 {sz cap bits : Nat} {a : RH.Tbl} (wf : WF cfg64 (.heap sz cap bits a)) :
+    blockBytes cfg64 (.heap sz cap bits a) = a.size * 8 + 24 := blockBytes_of_wf cfg64_ok wf
+/-- SetU32: 12 header bytes + 4 per word -/
+theorem block_bytes_u32 {sz cap bits : Nat} {a : RH.Tbl} (wf : WF cfg32 (.heap sz cap bits a)) :
+    blockBytes cfg32 (.heap sz cap bits a) = a.size * 4 + 12 := blockBytes_of_wf cfg32_ok wf
+
+theorem history_header_cap_u64 {D : Type} (g : Rng D) (fuel : Nat) (ops : List Op) (hops : ∀ op ∈ ops, op.InRange 64)
+    {r : Rp} (wf : WF cfg64 r) {d d' : D} {sz cap bits : Nat} {a : RH.Tbl} {outs : List Out}
+    (h : runOps cfg64 g fuel r ops d = .ok ((.heap sz cap bits a, outs), d')) : cap = a.size ∧ 0 < cap :=
+  run_heap_cap cfg64_ok g fuel ops hops wf h
+theorem history_header_cap_u32 {D : Type} (g : Rng D) (fuel : Nat) (ops : List Op) (hops : ∀ op ∈ ops, op.InRange 32)
+    {r : Rp} (wf : WF cfg32 r) {d d' : D} {sz cap bits : Nat} {a : RH.Tbl} {outs : List Out}
+    (h : runOps cfg32 g fuel r ops d = .ok ((.heap sz cap bits a, outs), d')) : cap = a.size ∧ 0 < cap :=
+  run_heap_cap cfg32_ok g fuel ops hops wf h
+
+/-! ### the hypotheses are satisfiable: reachable states in each heap layout of both types -/
+
+example : (3 : Nat) = (#[401016175510691840, 360712192, 0] : RH.Tbl).size ∧ 0 < 3 := header_cap_is_allocated_u64 Demo.bitmap64_wf
+example : blockBytes cfg64 Demo.plain64 = 4 * 8 + 24 := block_bytes_u64 Demo.plain64_wf
+example : blockBytes cfg64 Demo.dense64 = 1 * 8 + 24 := block_bytes_u64 Demo.dense64_wf
+example : blockBytes cfg32 Demo.bitmap32 = 3 * 4 + 12 := block_bytes_u32 Demo.bitmap32_wf
+example : blockBytes cfg32 Demo.plain32 = 4 * 4 + 12 := block_bytes_u32 Demo.plain32_wf
+example : blockBytes cfg32 Demo.dense32 = 2 * 4 + 12 := block_bytes_u32 Demo.dense32_wf
+example : toWord codec64 ⟨3, 69946533860081667⟩ % 8 ≠ 0 := inline_word_tagged_u64 Demo.inline64_wf
+example : toWord codec32 ⟨3, 69946533860081667⟩ % 4 ≠ 0 := inline_word_tagged_u32 Demo.inline32_wf
+
 end C06
+
+#print axioms C06.tag_coherent_u64
+#print axioms C06.tag_coherent_u32
+#print axioms C06.header_cap_is_allocated
+#print axioms C06.history_header_cap
